@@ -293,6 +293,13 @@ func driveC15(c *Ctx) {
 		}
 		run(iterIn{Kind: "MultisetPermutations", M: m})
 	}
+	// seven and eight elements: the first sizes at which the middle of a reversed tail is longer than three
+	for _, m := range [][]int{{2, 2, 2, 1}, {3, 2, 2}, {1, 2, 1, 2, 1}, {2, 2, 2, 2}, {1, 0, 5, 1}} {
+		run(iterIn{Kind: "MultisetPermutations", M: m})
+	}
+	if !big {
+		run(iterIn{Kind: "LexicographicPermutations", P: []int{7}})
+	}
 	if big {
 		for _, m := range [][]int{{3, 1, 2}, {0, 4, 1}, {2, 2, 2, 1}, {1, 1, 1, 1, 1}} {
 			for k := 0; k <= 5; k++ {
